@@ -44,6 +44,34 @@ class PartialEvalInfo:
     def_use: DefineUseAnalysis
 
 
+def _holds_list(val) -> bool:
+    """Whether *val* is, or contains, a (mutable) list."""
+    if isinstance(val, list):
+        return True
+    return isinstance(val, tuple) and any(_holds_list(v) for v in val)
+
+
+class _MutationScan(DefaultVisitor):
+    """Whether a function can change a list in place: by an indexed
+    assignment, or by handing one to a callee."""
+
+    found: bool = False
+
+    def _visit_indexed_assign(self, stmt: IndexedAssign, ctx: None):
+        self.found = True
+
+    def _visit_call(self, e: Call, ctx: None):
+        if not (isinstance(e.fn, type) and issubclass(e.fn, Context)):
+            self.found = True
+        super()._visit_call(e, ctx)
+
+
+def _may_mutate_lists(func: FuncDef) -> bool:
+    scan = _MutationScan()
+    scan._visit_function(func, None)
+    return scan.found
+
+
 class _PartialEvalInstance(DefaultVisitor):
     """
     Partial evaluation instance for a function.
@@ -66,6 +94,7 @@ class _PartialEvalInstance(DefaultVisitor):
         self.rt = get_default_interpreter()
         self.by_def = {}
         self.by_expr = {}
+        self.lists_may_change = _may_mutate_lists(func)
 
     def apply(self) -> PartialEvalInfo:
         self._visit_function(self.func, None)
@@ -97,8 +126,13 @@ class _PartialEvalInstance(DefaultVisitor):
         d = self.def_use.find_def_from_use(e)
         if d in self.by_def:
             val = self.by_def[d]
-            if not isinstance(val, _TopType):
-                self.by_expr[e] = val
+            if isinstance(val, _TopType):
+                return
+            if self.lists_may_change and _holds_list(val):
+                # a list is shared by every name bound to it, so an indexed
+                # assignment or a callee can change it behind this name
+                return
+            self.by_expr[e] = val
 
     def _meet(self, a, b):
         """SCCP meet — ``None`` is BOT (unit), :data:`_TOP` is top;
